@@ -820,6 +820,34 @@ Proof.
   specialize (IH _ _ _ H Hk2). cbn [length]. apply before_zeros_used; assumption.
 Qed.
 
+(* keys_vals: one delimiter (zero entry) at least is consumed per node, so a column with fewer zero
+   entries than ids runs out: "the column ends at a node boundary before every id is covered" *)
+Definition zeros (kv : list Z) : nat := length (filter (fun e => int32 e =? 0) kv).
+
+Lemma zeros_app a b : zeros (a ++ b) = (zeros a + zeros b)%nat.
+Proof. unfold zeros. rewrite filter_app, app_length. reflexivity. Qed.
+
+Lemma zeros_exists u : Exists (fun e => int32 e = 0) u -> (1 <= zeros u)%nat.
+Proof.
+  induction 1 as [e u He|e u _ IH]; unfold zeros in *; cbn [filter].
+  - rewrite He. cbn. lia.
+  - destruct (int32 e =? 0); cbn [length]; lia.
+Qed.
+
+Lemma extract_loop_kv_zeros c p : forall ids x x' kv,
+  extract_loop c p ids x = Ok x' -> c_keyvals (x_dc x) = Some kv -> (length ids <= zeros kv)%nat.
+Proof.
+  induction ids as [|v1 r IH]; intros x x' kv H Hk; [cbn; lia|].
+  cbn [extract_loop] in H. rbn H x1 H1. unfold extract_body in H1. rbn H1 r1 Hp.
+  destruct r1 as [n' x0]. injection H1 as <-.
+  destruct (extract_pre_inv _ _ _ _ _ Hp) as (_ & _ & Hkv). rewrite Hk in Hkv.
+  destruct Hkv as (kv' & t & Hl & Hk').
+  destruct (kv_loop_ok _ _ _ _ _ Hl) as (used & -> & Hf & He).
+  destruct (extract_post_dc c n' x0) as [Ed _].
+  assert (Hk2 : c_keyvals (x_dc (extract_post c n' x0)) = Some kv') by (rewrite Ed; exact Hk').
+  specialize (IH _ _ _ H Hk2). rewrite zeros_app. pose proof (zeros_exists used He). cbn [length]. lia.
+Qed.
+
 (* ---------- scanDenseNodes as a whole ---------- *)
 Lemma icol_ic0 k : icol k ic0 = None.
 Proof. unfold icol. repeat destruct (_ =? _); reflexivity. Qed.
@@ -911,6 +939,14 @@ Proof.
   apply (extract_loop_kv c p _ _ _ kv Hx). cbn [x_dc]. apply Hkv. exact Hc.
 Qed.
 
+Theorem dense_keyvals_delims_ok c p dc d q x ids kv :
+  scan_dense c p dc d q = Ok x -> col 1 d = Some ids -> col 10 d = Some kv ->
+  (length ids <= zeros kv)%nat.
+Proof.
+  intros H Hi Hc. destruct (scan_dense_cols _ _ _ _ _ _ _ H Hi) as (dc1 & xf & Hx & _ & Hkv).
+  apply (extract_loop_kv_zeros c p _ _ _ kv Hx). cbn [x_dc]. apply Hkv. exact Hc.
+Qed.
+
 (* ---------- the string table of a block ---------- *)
 Definition table_from (t : list bytes) (m : msg) : list bytes :=
   fold_left (fun t f => if fst f =? 1 then match snd f with WMsg d => strings_of d | _ => t end else t) m t.
@@ -996,7 +1032,12 @@ Inductive in_block_damage (c : cfg) (m : msg) : Prop :=
   | IB_rel_columns g r roles memids types :
       In (2, WMsg g) m -> In (4, WMsg r) g -> skip_rels c = false ->
       col 8 r = Some roles -> col 9 r = Some memids -> col 10 r = Some types ->
-      length roles <> length types \/ (length memids < length roles)%nat -> in_block_damage c m.
+      length roles <> length types \/ (length memids < length roles)%nat -> in_block_damage c m
+  (* dense keys_vals with fewer delimiters (zero entries) than ids: the column ends, at a node
+     boundary or inside a node, before every node is covered *)
+  | IB_dense_keyvals_short g d ids kv :
+      In (2, WMsg g) m -> In (2, WMsg d) g -> skip_nodes c = false ->
+      col 1 d = Some ids -> col 10 d = Some kv -> (zeros kv < length ids)%nat -> in_block_damage c m.
 
 (* every class makes the block decoder return an error, from every incoming decoder state *)
 Theorem in_block_damage_is_err c m : in_block_damage c m ->
@@ -1041,6 +1082,8 @@ Proof.
   - eapply bad_relation_is_err; try eassumption. intros p wc r0 y Hp Hs.
     destruct (relation_members_ok _ _ _ _ _ _ _ _ Hs H2 H3 H4) as (L1 & L2 & _).
     destruct H5; [contradiction|lia].
+  - eapply bad_dense_is_err; try eassumption. intros p dc q x Hp Hs.
+    pose proof (dense_keyvals_delims_ok _ _ _ _ _ _ _ _ Hs H2 H3). lia.
 Qed.
 
 (* a block without any stringtable field has the empty table, whatever the decoder decoded before:
